@@ -41,6 +41,8 @@ def handle (line : String) : String :=
     match toks.mapM parseOp with
     | none => "bad-op"
     | some ops =>
+      -- outside the fragment the theorems of Props/C33 speak about: flag it (the harness never generates it)
+      if !opsOk ops then "inadmissible-op" else
       let (_, outs) := run World.init ops []
       "|".intercalate (outs.map showRes)
   | _ => "bad-op"
